@@ -1,6 +1,7 @@
 package main
 
 import (
+	"go/token"
 	"encoding/json"
 	"go/ast"
 	"go/constant"
@@ -248,6 +249,47 @@ func checkFeatureTable(p *Program, r *Result, g *goLayouts, vf *vectorFacts, ts 
 		}
 		return true
 	})
+	// table form: parseOptions looks the feature up in a package-level map from feature string to a function literal
+	// that sets the option
+	ast.Inspect(fd.Body, func(n ast.Node) bool {
+		ix, ok := n.(*ast.IndexExpr)
+		if !ok {
+			return true
+		}
+		tid, ok := ix.X.(*ast.Ident)
+		if !ok {
+			return true
+		}
+		lit := packageMapLiteral(g, tid)
+		if lit == nil {
+			return true
+		}
+		for _, el := range lit.Elts {
+			kv, ok := el.(*ast.KeyValueExpr)
+			if !ok {
+				continue
+			}
+			s, ok := constString(g.info, kv.Key)
+			if !ok {
+				continue
+			}
+			fl, ok := kv.Value.(*ast.FuncLit)
+			if !ok {
+				continue
+			}
+			has[s] = true
+			eff := [2]string{"", ""}
+			for _, st := range fl.Body.List {
+				if as, ok := st.(*ast.AssignStmt); ok && len(as.Lhs) == 1 && len(as.Rhs) == 1 {
+					if sel, ok := as.Lhs[0].(*ast.SelectorExpr); ok {
+						eff = [2]string{sel.Sel.Name, types.ExprString(as.Rhs[0])}
+					}
+				}
+			}
+			arms[s] = eff
+		}
+		return true
+	})
 	all := map[string]bool{}
 	for f := range ts {
 		all[f] = true
@@ -290,16 +332,34 @@ func checkInputHandlers(p *Program, r *Result, g *goLayouts, vf *vectorFacts) {
 		return
 	}
 	cases := map[string]bool{}
-	ast.Inspect(fd.Body, func(n ast.Node) bool {
-		if cc, ok := n.(*ast.CaseClause); ok {
-			for _, e := range cc.List {
-				if s, ok := constString(g.info, e); ok {
-					cases[s] = true
+	// the record-type switch may live in an unexported helper of jsonToMCAP
+	bodies := []*ast.FuncDecl{fd}
+	seenD := map[*ast.FuncDecl]bool{fd: true}
+	for i := 0; i < len(bodies) && i < 8; i++ {
+		ast.Inspect(bodies[i].Body, func(n ast.Node) bool {
+			if ce, ok := n.(*ast.CallExpr); ok {
+				if fn := g.calleeOf(ce); fn != nil && !fn.Exported() && !strings.HasPrefix(fn.Name(), "parse") {
+					if hd := g.decls[fn]; hd != nil && hd.Body != nil && !seenD[hd] {
+						seenD[hd] = true
+						bodies = append(bodies, hd)
+					}
 				}
 			}
-		}
-		return true
-	})
+			return true
+		})
+	}
+	for _, bd := range bodies {
+		ast.Inspect(bd.Body, func(n ast.Node) bool {
+			if cc, ok := n.(*ast.CaseClause); ok {
+				for _, e := range cc.List {
+					if s, ok := constString(g.info, e); ok {
+						cases[s] = true
+					}
+				}
+			}
+			return true
+		})
+	}
 	var tys []string
 	for t := range vf.inputTypes {
 		tys = append(tys, t)
@@ -405,28 +465,21 @@ func checkOutputNames(p *Program, r *Result, g *goLayouts, vf *vectorFacts) {
 		s = re2.ReplaceAllString(s, "${1}_${2}")
 		return strings.ToLower(s)
 	}
-	// struct types wrapped in Record{...}
+	// struct types wrapped in Record{...}: in readStreamed or the unexported helpers it calls; a generic helper
+	// (Record{*parsed} with parsed *T) contributes the type arguments it is instantiated with
 	seen := map[string]bool{}
-	ast.Inspect(fd, func(n ast.Node) bool {
-		cl, ok := n.(*ast.CompositeLit)
-		if !ok || len(cl.Elts) != 1 {
-			return true
-		}
-		if nt, _ := structOf(g.info.TypeOf(cl)); nt == nil || nt.Obj().Name() != "Record" {
-			return true
-		}
-		t := g.info.TypeOf(cl.Elts[0])
+	judge := func(t types.Type, pos token.Pos) {
 		nt, st := structOf(t)
 		if nt == nil || st == nil || seen[nt.Obj().Name()] {
-			return true
+			return
 		}
 		seen[nt.Obj().Name()] = true
 		name := nt.Obj().Name()
 		want := vf.fields[name]
 		construct := "fields of " + name
 		if want == nil {
-			r.note("C17.c", fname, construct, p.pos(cl.Pos()), "the tool can emit records of type "+name+" (only when chunks are not de-chunked); no vector lists that type")
-			return true
+			r.note("C17.c", fname, construct, p.pos(pos), "the tool can emit records of type "+name+" (only when chunks are not de-chunked); no vector lists that type")
+			return
 		}
 		got := map[string]bool{}
 		for i := 0; i < st.NumFields(); i++ {
@@ -454,12 +507,66 @@ func checkOutputNames(p *Program, r *Result, g *goLayouts, vf *vectorFacts) {
 		sort.Strings(missing)
 		sort.Strings(extra)
 		if len(missing)+len(extra) == 0 {
-			r.held("C17.c", fname, construct, p.pos(cl.Pos()), "snake-cased exported fields equal the vectors' field names")
+			r.held("C17.c", fname, construct, p.pos(pos), "snake-cased exported fields equal the vectors' field names")
 		} else {
-			r.violated("C17.c", fname, construct, p.pos(cl.Pos()), "expected by the vectors but not printed: ["+strings.Join(missing, ",")+"]; printed but not expected: ["+strings.Join(extra, ",")+"]")
+			r.violated("C17.c", fname, construct, p.pos(pos), "expected by the vectors but not printed: ["+strings.Join(missing, ",")+"]; printed but not expected: ["+strings.Join(extra, ",")+"]")
 		}
-		return true
-	})
+	}
+	bodies := []*ast.FuncDecl{fd}
+	seenD := map[*ast.FuncDecl]bool{fd: true}
+	for i := 0; i < len(bodies) && i < 10; i++ {
+		ast.Inspect(bodies[i].Body, func(n ast.Node) bool {
+			if ce, ok := n.(*ast.CallExpr); ok {
+				if fn := g.calleeOf(ce); fn != nil && !fn.Exported() && fn.Pkg() != nil && fn.Pkg().Path() == pkgReadC {
+					if hd := g.decls[fn]; hd != nil && hd.Body != nil && !seenD[hd] {
+						seenD[hd] = true
+						bodies = append(bodies, hd)
+					}
+				}
+			}
+			return true
+		})
+	}
+	for _, bd := range bodies {
+		ast.Inspect(bd, func(n ast.Node) bool {
+			cl, ok := n.(*ast.CompositeLit)
+			if !ok || len(cl.Elts) != 1 {
+				return true
+			}
+			if nt, _ := structOf(g.info.TypeOf(cl)); nt == nil || nt.Obj().Name() != "Record" {
+				return true
+			}
+			t := g.info.TypeOf(cl.Elts[0])
+			if tp, ok := t.(*types.TypeParam); ok {
+				// instantiations of the enclosing generic helper
+				for _, b2 := range bodies {
+					ast.Inspect(b2.Body, func(m ast.Node) bool {
+						ce, ok := m.(*ast.CallExpr)
+						if !ok {
+							return true
+						}
+						var id *ast.Ident
+						switch f := ce.Fun.(type) {
+						case *ast.Ident:
+							id = f
+						case *ast.IndexExpr:
+							id, _ = f.X.(*ast.Ident)
+						}
+						if id == nil || id.Name != bd.Name.Name {
+							return true
+						}
+						if inst, ok := g.info.Instances[id]; ok && inst.TypeArgs != nil && tp.Index() < inst.TypeArgs.Len() {
+							judge(inst.TypeArgs.At(tp.Index()), ce.Pos())
+						}
+						return true
+					})
+				}
+				return true
+			}
+			judge(t, cl.Pos())
+			return true
+		})
+	}
 	var tys []string
 	for t := range vf.fields {
 		tys = append(tys, t)
